@@ -169,7 +169,9 @@ def main():
     out = (tpl.replace('{{SUMMARY_TABLE}}', summary_table(mods)).replace('{{PER_PROPERTY}}', per_property(mods, known))
            .replace('{{NOT_APPLICABLE}}', na_txt).replace('{{FIXES}}', fixes(known)).replace('{{KNOWN}}', known_section(known))
            .replace('{{FALSE_ALARMS}}', fa).replace('{{CATCH_SEEDS}}', seeds).replace('{{CATCH_MUTANTS}}', muts)
-           .replace('{{STRENGTHENED}}', NOTES['strengthened']))
+           .replace('{{STRENGTHENED}}', NOTES['strengthened'])
+           .replace('{{N_FIXES}}', str(sum(1 for l in subprocess.run(['git', '-C', '/repo', 'log', '--format=%s'], capture_output=True, text=True).stdout.splitlines() if l.startswith('fix:'))))
+           .replace('{{N_KNOWN}}', str(sum(1 for k in known['findings'] if k.get('status', 'open') == 'open'))))
     open(os.path.join(HERE, 'DESIGN.md'), 'w').write(out)
     print("DESIGN.md written: %d lines" % out.count('\n'))
 
